@@ -257,6 +257,16 @@ func runC17(c *fw.Ctx, idx int) fw.Result {
 			if ef.ReverseComplement().Decode().Seq != upperStr(rc) {
 				res.Fail("encoded-vs-text-revcomp", "encoded and text reverse complements disagree on "+s, nil, nil)
 			}
+			// results are values: a later call must not change an earlier result
+			keep1, keep2 := ef.Complement(), ef.ReverseComplement()
+			want1, want2 := keep1.Decode().Seq, keep2.Decode().Seq
+			other := fastaio.FastaRecord{ID: "y", Seq: gen.RandSeq(r, L, gen.SeqProfile{PAmbig: 0.3})}.Encode()
+			other.Complement()
+			other.ReverseComplement()
+			fr.Complement()
+			if keep1.Decode().Seq != want1 || keep2.Decode().Seq != want2 || ef.Decode().Seq != upperStr(s) {
+				res.Fail("complement-result-aliased", "the result of an earlier Complement/ReverseComplement call changed after a later call (shared buffer) for "+s, nil, nil)
+			}
 		}
 	}
 	return res
